@@ -33,7 +33,8 @@ LEVEL_TEXT = ("Exploration: every copy made is compared field by field and by wr
 LEVEL_NOTE = "Trusts pickle/copy of the standard library and numpy array equality; objects outside the generators' classes are not covered."
 TECHNIQUE = "runtime monitoring: round-trip oracle (canonical snapshot + write() text + mutation independence) on every copy of generated and corpus objects"
 
-METHODS = ["pickle0", "pickle1", "pickle2", "pickle3", "pickle4", "pickle5", "deepcopy"]
+METHODS = ["pickle0", "pickle1", "pickle2", "pickle3", "pickle4", "pickle5", "deepcopy",
+           "purepy-pickle2", "purepy-pickle5"]      # pickle's own pure-Python unpickler (what pickle.loads is where the C accelerator is missing)
 
 GRID_SPECS = []
 for sect in ("well", "params", "curves", "custom"):
@@ -94,6 +95,8 @@ def text_can_carry(spec):
 def make(method, obj):
     if method == "deepcopy":
         return copy.deepcopy(obj)
+    if method.startswith("purepy-"):
+        return pickle._loads(pickle._dumps(obj, int(method[-1])))
     return pickle.loads(pickle.dumps(obj, int(method[-1])))
 
 
@@ -109,7 +112,7 @@ def run_case(case, ctx):
         ctx.count("corpus_files")
         rebuild = lambda: lasio.read(os.path.join(env.REPO, case["file"]))
         sig = ["corpus", case["file"]]
-        methods = ["pickle2", "pickle5", "deepcopy"]
+        methods = ["pickle2", "pickle5", "deepcopy", "purepy-pickle2"]
     else:
         spec = case["spec"] if case["kind"] == "spec" else layout_spec(case["section"], case["names"])
         spec = dict(spec)
